@@ -99,8 +99,13 @@ class GridObject(ObjectBase, ABC):
                     and isinstance(getattr(child, "values", None), np.ndarray)
                     and child.values.shape == mask.shape
                 ):
-                    values = np.ones_like(child.values) * np.nan
-                    values[mask] = child.values[mask]
+                    if isinstance(child.nan_value, str):
+                        values = np.full(child.values.shape, child.nan_value, dtype=object)
+                        values[mask] = child.values[mask]
+                        values = values.astype(str)
+                    else:
+                        values = np.ones_like(child.values) * np.nan
+                        values[mask] = child.values[mask]
                 else:
                     values = child.values
 
